@@ -67,6 +67,10 @@ pub fn execute_program(
         ))?,
     };
     let stack = vec![0u8; ebpf::STACK_SIZE];
+    #[cfg(rbpf_verif)]
+    crate::verif::LAST_STACK_BASE.store(stack.as_ptr() as u64, Ordering::Relaxed);
+    #[cfg(rbpf_verif)]
+    let mut verif_steps: u64 = 0;
     let mut stacks = [StackFrame::new(); MAX_CALL_DEPTH];
     let mut stack_frame_idx = 0;
 
@@ -118,6 +122,14 @@ pub fn execute_program(
     // Loop on instructions
     let mut insn_ptr: usize = 0;
     while insn_ptr * ebpf::INSN_SIZE < prog.len() {
+        #[cfg(rbpf_verif)]
+        {
+            let budget = crate::verif::INSN_BUDGET.load(Ordering::Relaxed);
+            verif_steps += 1;
+            if budget != 0 && verif_steps > budget {
+                return Err(Error::other("Error: verif instruction budget exhausted"));
+            }
+        }
         let insn = ebpf::get_insn(prog, insn_ptr);
         if stack_frame_idx < MAX_CALL_DEPTH
             && let Some(usage) = stack_usage.stack_usage_for_local_func(insn_ptr) {
